@@ -263,6 +263,8 @@ class QuickSampler:
             self.input_state,
             self.post_select,
             self.photon_counting,
+            self.__circuit.n_modes,
+            self.__circuit.heralds,
         ]
 
     def _calculate_probabiltiies(self, outputs: list) -> dict:
